@@ -334,6 +334,7 @@ func (p *Connect) UnmarshalBinary(data []byte) error {
 	if bits(p.flags).Has(WillFlag) {
 		p.will = NewPublish()
 		p.will.SetQoS(p.willQoS())
+		p.will.SetRetain(bits(p.flags).Has(WillRetain))
 		buf.getAny(p.willPropertyMap(), p.appendWillProperty)
 		get(&p.will.topicName)
 		get(&p.willPayload)
